@@ -97,26 +97,69 @@ func runC10V1(c *Ctx) {
 	queue := c.Field("C10.V1", "p.DB.mu.mem.queue")
 	logNum := c.Field("C10.V1", "p.flushableEntry.logNum")
 	// the cell of the local variable n
+	// n: the variable that bounds the slice of the queue handed to newFlush.
+	nName := "n"
+	for _, in := range instrs(fn, CallTo("p.newFlush")) {
+		for _, a := range in.(*ssa.Call).Common().Args {
+			if sl, ok := a.(*ssa.Slice); ok && isLoadOfField(sl.X, queue) && sl.High != nil {
+				switch h := stripConv(sl.High).(type) {
+				case *ssa.Phi:
+					if h.Comment != "" {
+						nName = h.Comment
+					}
+				case *ssa.UnOp:
+					if al, ok := h.X.(*ssa.Alloc); ok && al.Comment != "" {
+						nName = al.Comment
+					}
+				}
+			}
+		}
+	}
+	// the variable whose value the version edit's MinUnflushedLogNum receives (in the closure)
+	var minLogCell ssa.Value
+	for _, a := range fn.AnonFuncs {
+		for _, b := range a.Blocks {
+			for _, in := range b.Instrs {
+				st, ok := in.(*ssa.Store)
+				if !ok {
+					continue
+				}
+				fa, ok := st.Addr.(*ssa.FieldAddr)
+				if !ok {
+					continue
+				}
+				if f := fieldVar(fa.X.Type(), fa.Field); f == nil || f.Name() != "MinUnflushedLogNum" {
+					continue
+				}
+				if u, ok := st.Val.(*ssa.UnOp); ok && u.Op == token.MUL {
+					if fv, ok := u.X.(*ssa.FreeVar); ok {
+						if al, ok := freeVarBinding(fv).(*ssa.Alloc); ok && al.Parent() == fn {
+							minLogCell = al
+						}
+					}
+				}
+			}
+		}
+	}
 	isLoadOfN := func(v ssa.Value) bool {
 		u, ok := v.(*ssa.UnOp)
 		if !ok || u.Op != token.MUL {
 			return false
 		}
 		a, ok := u.X.(*ssa.Alloc)
-		return ok && a.Comment == "n"
+		return ok && a.Comment == nName
 	}
 	isN := func(v ssa.Value) bool {
 		v = stripConv(v)
 		if isLoadOfN(v) {
 			return true
 		}
-		if phi, ok := v.(*ssa.Phi); ok && phi.Comment == "n" {
+		if phi, ok := v.(*ssa.Phi); ok && phi.Comment == nName {
 			return true
 		}
 		return false
 	}
 	// (1) the value that reaches ve.MinUnflushedLogNum
-	var minLogCell ssa.Value
 	nChecks := 0
 	for _, b := range fn.Blocks {
 		for _, in := range b.Instrs {
@@ -125,10 +168,9 @@ func runC10V1(c *Ctx) {
 				continue
 			}
 			a, ok := st.Addr.(*ssa.Alloc)
-			if !ok || a.Comment != "minUnflushedLogNum" {
+			if !ok || minLogCell == nil || ssa.Value(a) != minLogCell {
 				continue
 			}
-			minLogCell = a
 			nChecks++
 			// must be exactly: load of (&queue[n]).logNum
 			ok2 := false
@@ -169,7 +211,7 @@ func runC10V1(c *Ctx) {
 		c.Ob("C10.V1", fn, "after the flush queue[n:] remains", c.P.Pos(in.Pos()), okk, "")
 	}
 	// (3) the closure stores that very variable into ve.MinUnflushedLogNum
-	if minLogCell != nil {
+	{
 		found := false
 		for _, a := range fn.AnonFuncs {
 			for _, b := range a.Blocks {
@@ -187,7 +229,7 @@ func runC10V1(c *Ctx) {
 						continue
 					}
 					found = true
-					okk := pathOf(st.Val) == "minUnflushedLogNum"
+					okk := minLogCell != nil && pathOf(st.Val) == minLogCell.(*ssa.Alloc).Comment
 					c.Ob("C10.V1", a, "ve.MinUnflushedLogNum is the value captured before the flush", c.P.Pos(in.Pos()), okk, "")
 				}
 			}
@@ -207,6 +249,6 @@ func runC10V1(c *Ctx) {
 			return false
 		}
 		a, ok := st.Addr.(*ssa.Alloc)
-		return ok && a.Comment == "n"
+		return ok && a.Comment == nName
 	}), "n is fixed before it selects the flushed prefix", []string{"n-not-used-yet"})
 }
